@@ -234,9 +234,9 @@ Ltac plain9 id :=
 
 Lemma visit_st_pre9_emits n : emits9 body_seg (visit_st_pre9 n).
 Proof.
-  unfold visit_st_pre9. destruct (tn_id n) as [id|]; [|apply emits9_raise]. destruct (tn_ctl n) as [ctl|]; [|apply emits9_raise].
-  apply emits9_lift_bind. intros ak2 E. r_inv E. plain9 "AK2"%string.
-  match goal with H : match ?c with Some _ => _ | None => _ end = Ok _ |- _ => revert H; destruct c; intros H end; repeat sid_step; reflexivity.
+  unfold visit_st_pre9. destruct (tn_id n) as [id|]; [|apply emits9_raise]. destruct (tn_ctl n) as [ctl|].
+  all: apply emits9_lift_bind; intros ak2 E; r_inv E; plain9 "AK2"%string;
+    match goal with H : match ?c with Some _ => _ | None => _ end = Ok _ |- _ => revert H; destruct c; intros H end; repeat sid_step; reflexivity.
 Qed.
 
 Lemma visit_st_post9_emits t : emits9 body_seg (visit_st_post9 t).
